@@ -27,7 +27,7 @@ COMPONENTS = {'real': ['enspara.cluster.kmedoids (_kmedoids_pam_update, proposer
 ASSUMPTIONS = ['cost comparisons allow 4*n ulp (the library and the model may sum in different orders; under MPI the '
                'reduction order is legitimately free)', 'explicit proposals are members of the cluster being updated',
                'zero sweeps are requested through k-hybrid, which supports it, not through kmedoids(n_iters=0)']
-REACH_EXPECTED = ['estimator_reproducibility', 'per_rank_generators', 'proposal_accepted', 'proposal_rejected', 'mpi_run', 'random_sweep', 'hybrid_cost_sequence',
+REACH_EXPECTED = ['seed_via_set_params', 'estimator_warm_start_sweep', 'estimator_reproducibility', 'per_rank_generators', 'proposal_accepted', 'proposal_rejected', 'mpi_run', 'random_sweep', 'hybrid_cost_sequence',
                   'reproducibility_checked', 'reproducible_across_poison', 'warm_centres_only', 'warm_labels_only',
                   'cold_start_sequence', 'empty_cluster_share_on_rank']
 
@@ -99,6 +99,13 @@ def scenario(ctx):
                 if mpi and t.flag():
                     extra['per_rank_rng'] = True
                     ctx.hit('per_rank_generators')
+                if not mpi and t.flag(1, 3):
+                    # the estimator object: it has no seed argument (draws from numpy's global state), and may be told the
+                    # number of clusters although the warm start already fixes it
+                    extra['form'] = 'estimator'
+                    extra['est_n_clusters'] = K if t.flag() else None
+                    np.random.seed(extra['random_state'])
+                    ctx.hit('estimator_warm_start_sweep')
                 ctx.hit('random_sweep')
                 hist.append(('random', extra['random_state']))
             else:
@@ -230,7 +237,10 @@ def scenario(ctx):
     if not mpi and t.flag(1, 4):
         # estimator form: two objects built from the same seed give the same clustering; a second fit() of one object on
         # the same data must still satisfy the cost guarantee (its generator has moved on, so it need not be identical)
-        specE = dict(algo='hybrid', form='estimator', k=k, cutoff=cutoff, n_iters=n_iters, random_state=rseed)
+        specE = dict(algo='hybrid', form='estimator', k=k, cutoff=cutoff, n_iters=n_iters, random_state=rseed,
+                     seed_via_set_params=t.flag())
+        if specE['seed_via_set_params']:
+            ctx.hit('seed_via_set_params')
         a = run(specE, suffix='ea')
         np.random.seed(t.draw(2 ** 31 - 1))
         np.random.rand(1 + t.draw(10))
